@@ -410,6 +410,12 @@ pub fn seed_corpus() -> Vec<String> {
     v.push("REGISTER RSTREAM <http://out/stream> AS SELECT * FROM NAMED WINDOW :a ON :sa [RANGE 10 STEP 2] FROM NAMED WINDOW :b ON :sb [RANGE 10 STEP 2] WHERE { WINDOW :a { ?s1 a <http://test/A> . } WINDOW :b { ?s2 a <http://test/B> . } }".into());
     v.push("ML.PREDICT( MODEL \"m\", INPUT { SELECT ?room ?h WHERE { ?room :humidity ?h } }, OUTPUT ?t )".into());
     v.push("RETRIEVE SOME ACTIVE STREAM ?s FROM <http://my.org/catalog> WITH { ?s a :Stream . }".into());
+    // update forms behind a prologue or an extension clause (operation-kind checks must still see them)
+    v.push("PREFIX ex: <http://e/> INSERT DATA { ex:a ex:p ex:b . }".into());
+    v.push("PREFIX ex: <http://e/>\nPREFIX f: <http://f/>\nDELETE { ?s ex:p ?o } INSERT { ?s f:p ?o } WHERE { ?s ex:p ?o }".into());
+    v.push("RULE :R :- CONSTRUCT { ?x :r ?z . } WHERE { ?x :r ?y . ?y :r ?z . } INSERT DATA { <http://e/a> <http://e/p> <http://e/b> . }".into());
+    v.push("RULE :R :- CONSTRUCT { ?x :r ?z . } WHERE { ?x :r ?y . } SELECT ?s WHERE { ?s <http://e/p> ?o }".into());
+    v.push("# comment first\nDELETE WHERE { ?s <http://e/p> ?o }".into());
     v
 }
 
